@@ -69,10 +69,17 @@ def run(M, rec, tier, seed, k, n):
                 rec.seen("element_kinds", kd)
             per_type = {}
             points = []
+            from vf import drive as _drive
+
+            intflags = []
             for _ in range(3):
                 _, vals = g.values(desc, allow_inf=(rng.random() < 0.5))
+                as_int = rng.random() < 0.2
+                if as_int:
+                    vals = _drive.integerise(vals)
                 if not R.is_singular(desc, vals):
                     points.append(vals)
+                    intflags.append(as_int)
             if not points:
                 rec.count("skipped_singular")
                 continue
@@ -85,9 +92,12 @@ def run(M, rec, tier, seed, k, n):
             cand = CC.candidate_params(desc, pars)
             keys = rng.sample(cand, rng.randint(1, min(5, len(cand)))) if with_p else []
             twins = []
-            for vals in points:
+            for vals, as_int in zip(points, intflags):
+                if as_int:
+                    rec.count("points_with_integer_arrays_on_the_numpy_side")
                 try:
-                    nxt, _ = CC.numpy_twin_next(M, desc, vals, pars, opts, scalar_shape=rng.choice(("vec1", "0d", "float")))
+                    nxt, _ = CC.numpy_twin_next(M, desc, vals, pars, opts, scalar_shape=rng.choice(("vec1", "0d", "float")),
+                                                int_dtype=as_int)
                 except Exception as e:
                     rec.count("numpy_twin_failed")
                     rec.seen("numpy_twin_failed", repr(e)[:120])
